@@ -99,7 +99,7 @@ type SubT struct {
 	Gated   bool   `json:"gated,omitempty"`
 	CloseInFn bool `json:"closeinfn,omitempty"` // the worker function calls Close() on its own job (must be refused: ErrJobProcessing)
 	Pre     bool   `json:"pre,omitempty"`     // stored in the distributed backend by another producer before the consumer binds
-	Reenter int    `json:"reenter,omitempty"` // the worker function calls back into the library: 1 introspection, 2 submits job Child, 3 TunePool
+	Reenter int    `json:"reenter,omitempty"` // the worker function calls back into the library: 1 introspection, 2 submits job Child, 3 TunePool, 4 Pause
 	Child   int    `json:"child,omitempty"`   // submission number of the follow-up job (Reenter 2)
 	IsChild bool   `json:"ischild,omitempty"` // submitted by another job's worker function, not by a client task
 }
@@ -346,6 +346,9 @@ func (wd *World) fnBody(j Job[int]) (int, error) {
 	case 2:
 		// ... and submit follow-up work
 		wd.runOp(Op{K: opAdd, Q: s.Q, Subs: []int{s.Child}})
+	case 4:
+		// ... or pause its own worker (a circuit breaker)
+		wd.runOp(Op{K: opPause})
 	case 3:
 		// ... or tune the pool it runs in (refused with ErrNotRunningWorker while a stop waits for this very job)
 		wd.runOp(Op{K: opTune, A: 1 + s.N%4})
